@@ -480,3 +480,59 @@ extern "C" void harness_dosplitop() {
 #endif
   verif_reach();
 }
+
+// C13 (scaling / mirroring, coordinates up to 2^40): TopX is exact on edges of integer slope - the x of the edge at a scanline is the
+// integer point on it, so scaling an input by an integer or mirroring it moves every such crossing with the input. The slope member dx
+// is set to the value GetDx yields for such an edge (an exactly representable integer; correctly rounded division is exact there).
+extern "C" void harness_topx_exact() {
+  static const int64_t K[8] = {1, -1, 2, -2, 4, -4, 16, -1024};
+  const int64_t L40 = (int64_t)1 << 40;
+#ifdef KIDX
+  int64_t k = K[KIDX];      // one slope per obligation: a constant multiplier keeps the floating-point product within reach of the SAT back ends
+#else
+  int64_t k = K[nd_int(0, 7)];
+#endif
+#ifndef TOPX_H
+#define TOPX_H (L40 / 8)
+#endif
+  int64_t h = nd_range(1, TOPX_H);
+  Active e; e.bot = Point64(nd_range(-L40, L40), nd_range(-L40, L40)); e.top = Point64(e.bot.x + k * h, e.bot.y - h);
+  e.dx = (double)(-k);
+  int64_t y = nd_range(-2 * L40, 2 * L40); ASSUME(y <= e.bot.y && y >= e.top.y);
+  int64_t x = TopX(e, y);
+  int64_t mag = e.bot.y - y;      // sign-magnitude shape, like the floating-point product it is compared with (DESIGN 1.4)
+  VA(k > 0 ? x == e.bot.x + k * mag : x == e.bot.x - (-k) * mag);
+  // (the mirror image of an edge of slope k is an edge of slope -k: both signs are in the table; the negative ones are parked, see props/C13.py)
+  verif_reach();
+}
+
+// C02 (horizontal joins): GetLastOp(e) is the output point most recently added on e's side of its ring, i.e. exactly what AddOutPt(e, .)
+// returned last - for the front edge the ring head, for the back edge the point after it; the ring stays consistently linked and
+// grows by at most one point.
+#ifndef LN
+#define LN 3
+#endif
+extern "C" void harness_getlastop() {
+  Clipper64& c = *new Clipper64();
+  OutRec* rec = new OutRec(); Active& f = *new Active(); Active& b = *new Active();
+  rec->front_edge = &f; rec->back_edge = &b; f.outrec = rec; b.outrec = rec;
+  OutPt* ops[LN];
+  for (int i = 0; i < LN; ++i) ops[i] = new OutPt(Point64(nd_range(0, G), nd_range(0, G)), rec);
+  for (int i = 0; i < LN; ++i) { ops[i]->next = ops[(i + 1) % LN]; ops[i]->prev = ops[(i + LN - 1) % LN]; }
+  rec->pts = ops[0];
+  bool front = nondet_bool(); Active& e = front ? f : b;
+  Point64 pt(nd_range(0, G), nd_range(0, G));
+  OutPt* last = c.AddOutPt(e, pt);
+  VA(last->pt == pt && last->outrec == rec);
+  VA(GetLastOp(e) == last);
+  VA(GetLastOp(front ? b : f) == (front ? rec->pts->next : rec->pts));       // the other side's last point is untouched
+  VA((front ? rec->pts->next : rec->pts) == (front ? ops[1] : ops[0]));
+  // ring: LN or LN+1 points, consistently linked, the new one between head and former second point
+  int n = 0; OutPt* p = rec->pts;
+  for (int i = 0; i < LN + 2; ++i) { VA(p->next->prev == p); ++n; p = p->next; if (p == rec->pts) break; }
+  VA(p == rec->pts && (n == LN || n == LN + 1));
+  bool fresh = true; for (int i = 0; i < LN; ++i) if (last == ops[i]) fresh = false;
+  VA(fresh == (n == LN + 1));
+  if (!fresh) VA(last == (front ? ops[0] : ops[1]));
+  verif_reach();
+}
